@@ -15,7 +15,8 @@ open Atto
 
 /-- `resp <METHOD> <maxHeaders> <cap> <maxBuf> <segs> <reads>`
     reads: comma-separated sizes, or `B<sz>` (`bytes()`: drain with reads of `sz`), `W<sz>` (`write_to`),
-    `S<sz>` (`split()` + `read_to_end`) — the same drain —, `Q<sz>` (`error_for_status()?.bytes()`:
+    `S<sz>` (`split()` + `read_to_end`), `J<sz>` (`json()` / `json_utf8()` on a body that is a canonical JSON
+    document: Ok stands for the whole body) — the same drain —, `Q<sz>` (`error_for_status()?.bytes()`:
     `StatusCode::is_success` = 200 ≤ status < 300, else `ErrorKind::StatusCode`), `T<sz>` (`text_utf8()`). -/
 def opResp (args : List String) : String :=
   match args with
@@ -44,6 +45,7 @@ def opResp (args : List String) : String :=
            | 'B' :: rest => drainEv rest
            | 'W' :: rest => drainEv rest
            | 'S' :: rest => drainEv rest
+           | 'J' :: rest => drainEv rest
            | 'Q' :: rest =>
              if 200 ≤ resp.status ∧ resp.status < 300 then drainEv rest else [s!"e:status{resp.status}"]
            | _ =>
